@@ -58,7 +58,28 @@ def pl(value):
 
 
 class AppError(Exception):
-    """The application-level error raised/sent by scripted sources."""
+    """The application-level error raised/sent by scripted sources. How it is constructed follows EXC_STYLE (set per
+    program from cfg['exc_style']): applications raise exceptions with a message, with none, with a non-string argument
+    (KeyError(7)), wrapping another exception, or with several arguments."""
+
+    def __init__(self, message=''):
+        style = EXC_STYLE[0]
+        if style == 'none':
+            super().__init__()
+        elif style == 'int':
+            super().__init__(7)
+        elif style == 'nested':
+            super().__init__(ValueError(message))
+        elif style == 'tuple':
+            super().__init__(message, 42)
+        elif style == 'bytes':
+            super().__init__(message.encode())
+        else:
+            super().__init__(message)
+
+
+EXC_STYLE = ['str']
+EXC_STYLES = ('str', 'none', 'int', 'nested', 'tuple', 'bytes')
 
 
 def classes():
